@@ -14,17 +14,17 @@ Local Open Scope N_scope.
 Section Unrepaired.
   Variable valid : N -> bytes -> bool.
 
-  Definition c_legacy_unrepaired (v : txv) :=
+  Definition c_legacy_unrepaired (v : txv) : codec legacy_t :=
     c_pair c_transparent
       (c_pair c_u32le
         (c_pair (c_opt (has_overwinter v) c_u32le)
           (c_dep (c_opt (has_sapling v) (c_sapling4_raw valid))
                  (fun sap =>
                     c_pair (c_opt (has_sprout v) (c_sprout (has_sapling v)))
-                           (c_opt (sap4_nonempty valid sap) (c_fixed 64)))))).
+                           (c_opt (sap4_nonempty sap) (c_fixed 64)))))).
 
   (** [sapling_bundle: binding_sig.and_then(..)] = None, then [write_v4_components] with [None] *)
-  Definition drop_empty (x : ty (c_legacy_unrepaired V4)) : ty (c_legacy_unrepaired V4) :=
+  Definition drop_empty (x : legacy_t) : legacy_t :=
     let '(tp, (lock, (exp, (sap, rest)))) := x in
     let sap' := match sap with
                 | Some (vb, (ss, os)) => if is_nil ss && is_nil os then Some (0, (ss, os)) else sap
@@ -37,7 +37,7 @@ Section Unrepaired.
     | Some ((v, x), r) => Some ((v, drop_empty x), r)
     | None => None
     end.
-  Definition write_v4_unrepaired (t : txv * ty (c_legacy_unrepaired V4)) : bytes :=
+  Definition write_v4_unrepaired (t : txv * legacy_t) : bytes :=
     enc (c_dep c_version (fun v => c_legacy_unrepaired v)) t.
 End Unrepaired.
 
